@@ -86,6 +86,8 @@ ExtraF(id) ==
   CASE id = "" -> <<>>
     [] id = "a" -> <<FP(XRef("a"))>>
     [] id = "c" -> <<FP(XRef("c"))>>
+    [] id = "b" -> <<FP(XRef("b"))>>
+    [] id = "mx" -> <<FP(XRef("mx"))>>
     [] id = "x" -> <<FP(XRef("x"))>>
     [] id = "host" -> <<FP(XRef("host"))>>
     [] id = "b::float" -> <<FP(XRefT("b", "float"))>>
@@ -143,6 +145,8 @@ SubSel(id) ==
     [] id = "s_alias2" -> MkSelect(<<FPA(XRef("a"), "mx"), FP(XRef("c"))>>, <<M1, M2>>, <<>>,
                                    <<DP(XRef("host")), DP(XRef("region"))>>)
     [] id = "s_stargb" -> MkSelect(<<FP(XStar(""))>>, <<M1, M2>>, <<>>, <<DP(XRef("host"))>>)
+    \* a column named like a tag of the other sources
+    [] id = "s_ahost"  -> MkSelect(<<FPA(XRef("a"), "host"), FP(XRef("b"))>>, <<M1>>, <<>>, <<>>)
     [] id = "s_x"      -> MkSelect(<<FP(XRef("x")), FP(XCall("count", <<XRef("a")>>))>>, <<M1>>, <<CondX("b>1")>>, <<>>)
     [] id = "s_fld"    -> MkSelect(<<FP(XStar("FIELD")), FPA(XRef("host"), "x")>>, <<M1>>, <<>>, <<DP(XCall("time", <<XDur1m>>))>>)
     [] id = "s_dimall" -> MkSelect(<<FP(XRe("a|b"))>>, <<M1>>, <<>>, <<DP(XStar(""))>>)
@@ -152,7 +156,11 @@ SubSel(id) ==
     [] id = "s2_c_stargb"    -> MkSelect(<<FP(XRef("c")), FPA(XCall("max", <<XRef("a")>>), "mx")>>,
                                          <<SubX(SubSel("s_stargb")), M2>>, <<>>, <<DP(XRef("region"))>>)
 
-SrcItem(it) == IF it \in {"m1", "m2", "m3"} THEN MeasX(it) ELSE SubX(SubSel(it))
+\* the same measurement name in two databases: two different measurements
+MeasDbX(db, n) == [s |-> Meas(db, "", n), t |-> <<Id(db), PT("."), PT("."), IdT(n)>>]
+SrcItem(it) == IF it \in {"m1", "m2", "m3"} THEN MeasX(it)
+               ELSE IF it = "d1..m1" THEN MeasDbX("d1", "m1") ELSE IF it = "d2..m1" THEN MeasDbX("d2", "m1")
+               ELSE SubX(SubSel(it))
 
 \* the statement of a choice record
 TopSel(c) ==
@@ -195,6 +203,11 @@ Sch(id) ==
     [] id \in 200..219 -> LET t == TypeSeq[((id - 200) \div 4) + 1] j == (id - 200) % 4 IN
                           [m1 |-> Ms([a |-> t], (IF j \in {1, 3} THEN {"a"} ELSE {}) \cup (IF j \in {2, 3} THEN {"host"} ELSE {}))]
 
+    \* one measurement name in two databases (and without database), with different columns and conflicting types
+    [] id = 400 -> [m1 |-> Ms([x |-> "unsigned"], {"host"})]
+                   @@ [k \in {"d1..m1"} |-> Ms([a |-> "float", b |-> "integer"], {"host"})]
+                   @@ [k \in {"d2..m1"} |-> Ms([a |-> "string", c |-> "boolean"], {"region"})]
+    [] id = 401 -> [k \in {"d1..m1"} |-> Ms([a |-> "integer"], {"host"})] @@ [k \in {"d2..m1"} |-> Ms([a |-> "float", b |-> "unsigned"], {"host", "region"})]
     \* wide schemas: more than 12 columns, with a tag shadowing a field of the same name among them
     [] id = 300 -> [m1 |-> Ms([n \in ToSet(WideNames) |-> "integer"] @@ [a |-> "float"], {"a", "host", "w05"})]
     [] id = 301 -> [m1 |-> Ms([a |-> "float", b |-> "string"], ToSet(WideNames) \cup {"a", "b", "host"})]
@@ -260,7 +273,7 @@ InvExactStar ==
   OkCase /\ Len(FieldsOf(out.stmt)) = 1 /\ FieldsOf(out.stmt)[1].Expr = Wild("") /\ DimsOf(out.stmt) = <<>>
          /\ (\A i \in DOMAIN out.stmt.Sources : out.stmt.Sources[i].k = "Measurement") =>
     LET S == Sch(out.sid)
-        ms == {out.stmt.Sources[i].Name : i \in DOMAIN out.stmt.Sources} \cap DOMAIN S
+        ms == {SrcKey(out.stmt.Sources[i]) : i \in DOMAIN out.stmt.Sources} \cap DOMAIN S
         fnames == UNION {DOMAIN S[m].fields : m \in ms}
         direct == {<<n, MaxType({S[m].fields[n] : m \in {x \in ms : n \in DOMAIN S[x].fields}})>> : n \in fnames}
                   \cup {<<t, "tag">> : t \in UNION {S[m].tags : m \in ms}}
